@@ -55,6 +55,11 @@ CLAIMED = {
         "text": "Matrix builders: abstract shapes show every builder returns (4,4) with no definite broadcast or inner-dimension error; each literal matrix is abstracted cell by cell to {0,1,cos,+-sin,+-param} and compared with the definition (translation column, scale diagonal, right-handed axis rotations, cross-product matrix and the three signed Rodrigues terms). Centre conjugation: the product chain (.dot / @ / np.dot / multi_dot) is flattened, its factors classified by the sign of their translate3d arguments relative to the centre expression, and compared with the order required by the vector convention that `apply` itself uses; the centre expression must be the root's position. apply(): x,y,z,w stacking, perspective divide, rows 0..2 stored to x,y,z of a copy as one axis family, nothing else stored; each transform class wires its own parameters to its own builder.",
         "note": ASSUME,
     },
+    "C18": {
+        "technique": "API-existence check against the installed numpy stubs (ast-parsed .pyi), sentinel discipline lint, decision tables by constant folding (union by rank, bifurcation predicate), dispatch exhaustiveness, call-graph cycle check",
+        "text": "All numpy attribute chains of the modules of this property are resolved against the installed numpy stubs; arithmetic on the parent-id column must be masked against -1 or followed by a restore of every -1 row; the union-by-rank ladder is tabulated over the three orderings of the two ranks (smaller re-parented; equal: one re-parented, new root's rank +1), find compresses paths, is_same_set compares roots; the bifurcation predicate is tabulated over children 0..4 x root x exclude_root against 'reject iff children >= 3 and not exempt root'; the fix_roots literal and its match arms agree with a raising default and a 'several roots' guard; checker skeletons (single root, cyclic, sorted, component labelling through an id->position dict) and root-repair steps are matched; the only recursion is find_parent, bounded by the rank.",
+        "note": ASSUME + " The installed numpy stubs describe the installed numpy.",
+    },
 }
 
 NOT_BUILT = "check not built yet in this round (planned, see DESIGN.md section 4); nothing is claimed"
